@@ -336,7 +336,8 @@ MANIFEST_META = {
                   "type - the counters must show zero generation events, the caches must not grow and the cached function object "
                   "must be the same; across a history no (generator, key patterns) pair may be generated twice. Liveness of the "
                   "instrumentation is asserted in every history."
-                  " Three long histories (1300 distinct patterns then the same 1300 again, oldest first, with other coefficient types; 4500 in thorough) are evaluated every run.",
+                  " Three long histories (1300 distinct patterns then the same 1300 again, oldest first, with other coefficient types; 4500 in thorough) are evaluated every run."
+                  " With a wrapper set, every application of the wrapper counts as a generation event.",
     "level_note": "Instrumentation hooks module attributes (kingdon.codegen.compile, kingdon.operator_dict.do_codegen/do_compile); a "
                   "refactor that renames them yields exit 2 (harness error), never a silent pass. d<=3. Sequential histories only "
                   "(the property says 'sequential').",
